@@ -140,6 +140,146 @@ def grind_keys(dev, rng, profile, tries=4000):
 
 
 # ------------------------------------------------------------------------------------------------
+# the SHAPE of the signatures a genuine device produces
+# ------------------------------------------------------------------------------------------------
+# An ECDSA signature is a pair (r, s) of integers below the group order; how long they are decides
+# how they are encoded (DER: minimal two's-complement integers; SGX: fixed 32-byte fields).  Class of
+# one component, by its 32-byte big-endian form:
+#   h32   first byte >= 0x80         (DER: 33 bytes, a 0x00 sign byte is prepended)
+#   l32   first byte 0x01..0x7f      (DER: 32 bytes)
+#   b31h  0x00 then a byte >= 0x80   (31-byte value with its high bit set; DER: 0x00 + 31 bytes)
+#   b31l  0x00 then 0x01..0x7f       (31-byte value; DER: 31 bytes - the leading zero MUST go)
+#   b30   0x00 0x00 ...              (30 bytes or fewer)
+# s >= 2^255 (h32) is a "high-s" signature, everything else "low-s" (n/2 is 2^255 minus a little on
+# both curves).  A shape is "<r class>/<s class>", "any" = whatever the nonce gives.
+# The simulators GRIND: they re-sign with fresh nonces, drawn from the case's seeded generator, until
+# the requested shape comes out (about 4 tries for a 32/32 class, 512 for a 31-byte one; nonces whose
+# r has <= 30 bytes cost 65 536 tries and are tabulated below - r does not depend on key or message).
+SECP_N = certv1.N
+P256_N = 0xFFFFFFFF00000000FFFFFFFFFFFFFFFFBCE6FAADA7179E84F3B9CAC2FC632551
+B30_NONCES = {
+    "secp256k1": (0xb1914690b2be59b66d21cabea340d5e57b097cc21d2991826a7225f75a1c3958,
+                  0xf588b85ca17258b3363c523521e5e32ec934abd990e49b1cc647c7d52ef9971d,
+                  0xe2e1c4de770e31c3b57a47a7cc8552292e02ab68fe62f10d6a03db79d2835f56,
+                  0x7b15ca1dfa27fec7b244fdd6a1b8f004dff7cf3ed7416f1b2627be26e1a2b740),
+    "p256": (0x7d3d26d16d1ea735e9a8c49032b3bd695be8beffbf1cb0b941f006664781bdc6,
+             0x31f2752aab40f9ff2a738f7fc74d3b1aaa72dffbae191eb30d86de12034fd332,
+             0x74853f717f0cae6b1228c83669e14239cc795e41bab122847edb019eeef52108,
+             0x2ef2330cc2ad7f8825708bb5c27d4ca0c26325319a92e249d3017cc70abb1c42),
+}
+# every class of the dimension; secp256k1 (Ledger) signatures are low-s only: libsecp256k1, which
+# the verifier uses, rejects high-s by design and BOLOS normalises what the device signs
+SHAPES_P256 = ("h32/h32", "l32/l32", "h32/l32", "l32/h32", "b31l/any", "b31h/any", "any/b31l", "any/b31h",
+               "b30/any")
+SHAPES_SECP = ("h32/l32", "l32/l32", "b31l/any", "b31h/any", "any/b31l", "any/b31h", "b30/any")
+SIG_SITES = {"ledger": ("dc", "en", "ui", "sg", "all"), "sgx": ("q_sig", "qe_sig", "pck", "pca", "root", "all")}
+
+
+def comp_class(v):
+    b = v.to_bytes(32, "big")
+    if b[0] >= 0x80:
+        return "h32"
+    if b[0]:
+        return "l32"
+    if b[1] >= 0x80:
+        return "b31h"
+    return "b31l" if b[1] else "b30"
+
+
+def _point_x(curve, k):
+    if curve == "secp256k1":
+        import secp256k1
+        return int.from_bytes(secp256k1.PrivateKey(k.to_bytes(32, "big"), raw=True).pubkey.serialize(
+            compressed=True)[1:], "big")
+    from cryptography.hazmat.primitives.asymmetric import ec
+    return ec.derive_private_key(k, ec.SECP256R1()).public_key().public_numbers().x
+
+
+def der_int(v):
+    b = v.to_bytes((v.bit_length() + 7) // 8 or 1, "big")
+    if b[0] & 0x80:
+        b = b"\x00" + b
+    return b"\x02" + bytes([len(b)]) + b
+
+
+def der_ecdsa(r, s):
+    body = der_int(r) + der_int(s)
+    return b"\x30" + bytes([len(body)]) + body
+
+
+def sign_shaped(curve, d, message, shape, rng, low_s_only=False, limit=400000):
+    """ECDSA over SHA-256(message) by the private scalar d whose (r, s) has the requested shape.
+    Returns (r, s, tries). Own arithmetic: r = x(kG) mod n, s = (z + r d) / k mod n."""
+    n = SECP_N if curve == "secp256k1" else P256_N
+    rc, sc = shape.split("/")
+    z = int.from_bytes(hashlib.sha256(message).digest(), "big")
+    table = list(B30_NONCES[curve]) if rc == "b30" else None
+    tries = 0
+    while tries < limit:
+        tries += 1
+        if table is not None:
+            k = table[rng.randrange(len(table))]
+        else:
+            k = rng.randrange(1, n)
+        r = _point_x(curve, k) % n
+        if r == 0 or (rc != "any" and comp_class(r) != rc):
+            if table is not None:
+                raise AssertionError("tabulated nonce does not give a short r")
+            continue
+        s = (z + r * d) * pow(k, -1, n) % n
+        if s == 0:
+            continue
+        # (r, s) and (r, n - s) both verify: keep the one(s) the class allows
+        cands = [s, n - s]
+        if low_s_only:
+            cands = [c for c in cands if comp_class(c) != "h32"]
+        if sc != "any":
+            cands = [c for c in cands if comp_class(c) == sc]
+        if not cands:
+            continue
+        return r, cands[0], tries
+    raise AssertionError("no signature of shape %s after %d tries" % (shape, tries))
+
+
+def shape_of_der(sig):
+    """'<r class>/<s class>' of a DER ECDSA signature (own decoder; diagnostics and coverage)."""
+    try:
+        lr = sig[3]
+        r = int.from_bytes(sig[4:4 + lr], "big")
+        ls = sig[5 + lr]
+        s = int.from_bytes(sig[6 + lr:6 + lr + ls], "big")
+        return "%s/%s" % (comp_class(r), comp_class(s))
+    except (IndexError, OverflowError):
+        return "?"
+
+
+def shape_for(case, site):
+    """The shape the case asks of the signature at `site` (None: whatever the nonce gives)."""
+    sh = case.get("sigshape")
+    if not sh or sh.get("cls", "any") == "any" or sh["site"] not in (site, "all"):
+        return None
+    return sh["cls"]
+
+
+def resign_x509(der, issuer_d, shape, rng):
+    """The same certificate with its signature replaced by one of the requested shape."""
+    reg = certv2.der_regions(der)
+    tbs = der[reg["tbs"][0]:reg["tbs"][1]]
+    r, s, _t = sign_shaped("p256", issuer_d, tbs, shape, rng)
+    sig = der_ecdsa(r, s)
+    bits = b"\x00" + sig
+    body = der[reg["tbs"][0]:reg["sigalg"][1]] + b"\x03" + _der_len(len(bits)) + bits
+    return b"\x30" + _der_len(len(body)) + body
+
+
+def _der_len(n):
+    if n < 0x80:
+        return bytes([n])
+    nb = n.to_bytes((n.bit_length() + 7) // 8, "big")
+    return bytes([0x80 | len(nb)]) + nb
+
+
+# ------------------------------------------------------------------------------------------------
 # the one altered thing
 # ------------------------------------------------------------------------------------------------
 class Alteration:
@@ -232,6 +372,8 @@ class LedgerDevice(AdminSimDevice):
             grind_keys(self, rng, prof)
         self.endo_set = False
         self.endo_acked = False
+        self.shape_rng = random.Random("c15-shape:%d" % case["devseed"])
+        self.sig_shapes = {}       # site -> measured '<r class>/<s class>' of what was signed
         self.hs = 0                # handshake stage of the dashboard session
         self.ui_att = None         # {"msg", "pages", "ready"}
         self.sg_att = None
@@ -264,8 +406,19 @@ class LedgerDevice(AdminSimDevice):
         return b"POWHSM:" + self.s_ver.encode() + b"::" + b"led" + ud + pubkeys_hash(self.keys65()) + \
             self.best_block + self.last_tx + self.timestamp.to_bytes(8, "big")
 
-    def _endorse(self, app_hash, msg):
-        return self.attkey.tweaked(app_hash).sign(msg, self.backend)
+    def _sign(self, key, msg, site):
+        """DER signature by a secp256k1 key; ground to the case's shape when this site is the one."""
+        shape = shape_for(self.case, site)
+        if shape is None:
+            sig = key.sign(msg, self.backend)
+        else:
+            r, s, _t = sign_shaped("secp256k1", key.d, msg, shape, self.shape_rng, low_s_only=True)
+            sig = der_ecdsa(r, s)
+        self.sig_shapes[site] = shape_of_der(sig)
+        return sig
+
+    def _endorse(self, app_hash, msg, site):
+        return self._sign(self.attkey.tweaked(app_hash), msg, site)
 
     # ---- dispatcher
     def _handle_admin(self, apdu):
@@ -311,7 +464,7 @@ class LedgerDevice(AdminSimDevice):
                 sig = self.devkey.sign(bytes([0x11]) + hdr + eph.pub65, self.backend)
                 return 0x9000, bytes([len(hdr)]) + hdr + bytes([65]) + eph.pub65 + bytes([len(sig)]) + sig
             hdr, pub = self.cert_header, self.devkey.pub65
-            sig = self.root.sign(bytes([0x02]) + hdr + pub, self.backend)
+            sig = self._sign(self.root, bytes([0x02]) + hdr + pub, "dc")
             hdr = a.flip(hdr, "dc_hdr")
             pub = a.flip(pub, "dc_key")
             sig = a.flip(sig, "dc_sig")
@@ -320,7 +473,7 @@ class LedgerDevice(AdminSimDevice):
             if len(data) < 1 or data[0] != 2:            # the UI's attestation needs scheme two
                 return 0x6A80, b""
             pub = self.attkey.pub65
-            sig = self.devkey.sign(bytes([0xFF]) + pub, self.backend)
+            sig = self._sign(self.devkey, bytes([0xFF]) + pub, "en")
             self.endo_set = True
             return 0x9000, a.flip(pub, "en_key") + a.flip(sig, "en_sig")
         if cmd == 0xC2:
@@ -348,7 +501,7 @@ class LedgerDevice(AdminSimDevice):
             if not self.endo_acked:
                 return 0x6A04, b""                       # no attestation key was ever set up
             msg = self.ui_message(data)
-            sig = self._endorse(self.ui_hash, msg)
+            sig = self._endorse(self.ui_hash, msg, "ui")
             sp = spans(UI_FIELDS, len(msg))
             buf = msg
             if a.site == "ui_fld":
@@ -385,7 +538,7 @@ class LedgerDevice(AdminSimDevice):
                 self.sg_att = None
                 return ERR_ATT_PROT_INVALID, b""
             msg = self.signer_message(data)
-            sig = self._endorse(self.signer_hash, msg)
+            sig = self._endorse(self.signer_hash, msg, "sg")
             buf = msg
             if a.site == "s_fld":
                 sp = spans(LG_FIELDS if self.legacy else SG_FIELDS, len(msg))
@@ -435,16 +588,21 @@ RB = certv2.REPORT_BODY
 ENV_AUTH = 64 + 64 + 384 + 64                 # sgx_quote_auth_data_t
 
 
-P256_N = 0xFFFFFFFF00000000FFFFFFFFFFFFFFFFBCE6FAADA7179E84F3B9CAC2FC632551
-
-
 class DetKey(certv2.Key):
     """A P-256 key derived from the seeded generator (certv2.Key draws from the OS)."""
 
     def __init__(self, rng):
         from cryptography.hazmat.primitives.asymmetric import ec
         self.curve = "P256"
-        self.priv = ec.derive_private_key(rng.randrange(1, P256_N), ec.SECP256R1())
+        self.d = rng.randrange(1, P256_N)
+        self.priv = ec.derive_private_key(self.d, ec.SECP256R1())
+
+    def sign_shape(self, message, shape, rng):
+        """DER signature of the requested shape (None: RFC 6979, whatever comes)."""
+        if shape is None:
+            return self.sign(message)
+        r, s, _t = sign_shaped("p256", self.d, message, shape, rng)
+        return der_ecdsa(r, s)
 
     def sign(self, message, hash_alg=None):
         from cryptography.hazmat.primitives import hashes
@@ -486,6 +644,14 @@ class SgxMaterial:
             "pck": det_x509(cn["pck"], self.pck, cn["pca"], self.pca, sn[2], ca=False),
             "fresh_root": det_x509(cn["root"], self.fresh_root, cn["root"], self.fresh_root, sn[3]),
         }
+        srng = random.Random("c15-shape:%d" % case["devseed"])
+        for who, issuer in (("root", self.root), ("pca", self.root), ("pck", self.pca)):
+            if shape_for(case, who) is not None:
+                self.der[who] = resign_x509(self.der[who], issuer.d, shape_for(case, who), srng)
+        self.sig_shapes = {}
+        for who in ("root", "pca", "pck"):
+            reg = certv2.der_regions(self.der[who])
+            self.sig_shapes[who] = shape_of_der(self.der[who][reg["sig"][0]:reg["sig"][1]])
         self.custom = custom
         prof = case.get("content", "random")
         self.qe_auth = content(rng, case["qeauth"], prof)
@@ -494,7 +660,9 @@ class SgxMaterial:
         qe["report_data"] = hashlib.sha256(self.att_xy + self.qe_auth).digest() + bytes(32)
         self.qe_fields = qe
         self.qe_body = RB.pack(qe)
-        self.qe_sig = certv2._der_sig_to_rs(self.pck.sign(self.qe_body))
+        qe_der = self.pck.sign_shape(self.qe_body, shape_for(case, "qe_sig"), srng)
+        self.sig_shapes["qe_sig"] = shape_of_der(qe_der)
+        self.qe_sig = certv2._der_sig_to_rs(qe_der)
         hdr = certv2.QUOTE_HEADER.random(rng)
         hdr.update({"version": 3, "sign_type": 2, "tee_type": 0})
         body = RB.random(rng)
@@ -503,7 +671,8 @@ class SgxMaterial:
         body["report_data"] = hashlib.sha256(custom).digest() + bytes(32)
         self.q_hdr, self.q_body = hdr, body
         self.quote = certv2.QUOTE_HEADER.pack(hdr) + RB.pack(body)
-        self.q_sig_der = self.att.sign(self.quote)
+        self.q_sig_der = self.att.sign_shape(self.quote, shape_for(case, "q_sig"), srng)
+        self.sig_shapes["q_sig"] = shape_of_der(self.q_sig_der)
         self.q_sig = certv2._der_sig_to_rs(self.q_sig_der)
         self.npem = case["npem"]
         self.cert_type = 5
@@ -868,6 +1037,8 @@ def _obs(case, truth):
             "node_n": "0x%x" % case.get("node_number", 0), "node_url": case.get("node_url", ""),
             "rootvia": case.get("rootvia", "file"), "root_url": case.get("root_url", ""),
             "http": [], "ud_sent": "", "att_file": "no", "contacted": "no", "g_err": "none", "v_err": "none",
+            "sigsite": (case.get("sigshape") or {}).get("site", "none"),
+            "sigclass": (case.get("sigshape") or {}).get("cls", "any"),
             "plat": case["plat"], "framing": case["framing"], "alt": case["alt"]["site"],
             "altinfo": case["alt"], "dev": truth,
             "g_onboard": "na", "g_attest": "na", "gather": "fail",
@@ -891,6 +1062,7 @@ def _run_ledger(case, scratch, tag):
         _run_ledger_commands(case, scratch, tag, dev, world, ud, ud_text, o, diag)
     o["http"] = http.calls
     o["ud_sent"] = ud_sent(dev)
+    diag["shapes"] = _check_shapes(case, dev.sig_shapes)
     diag["att_log"] = dev.att_log
     diag["admin_cmds"] = [c for (c, _d) in dev.admin_log]
     _unapplied(o, dev)
@@ -959,6 +1131,20 @@ def _run_ledger_commands(case, scratch, tag, dev, world, ud, ud_text, o, diag):
                 o["printed2"] = parse_printed(out2)
 
 
+def _check_shapes(case, measured):
+    """{site: '<r class>/<s class>'} as measured on the signatures really produced; a signature that
+    was to be ground to a shape and came out otherwise is a failure of the harness."""
+    sh = case.get("sigshape")
+    if sh and sh.get("cls", "any") != "any":
+        want = sh["cls"].split("/")
+        for site, got in measured.items():
+            if sh["site"] in (site, "all"):
+                g = got.split("/")
+                if any(w != "any" and w != x for w, x in zip(want, g)):
+                    raise AssertionError("signature %s was to have shape %s, has %s" % (site, sh["cls"], got))
+    return dict(measured)
+
+
 def _unapplied(o, dev):
     """An alteration of an answer the host never asked for altered nothing that was transmitted: the
     run is a genuine one (and is judged as such)."""
@@ -991,6 +1177,7 @@ def _run_sgx(case, scratch, tag):
         _run_sgx_commands(case, scratch, tag, dev, world, ud, ud_text, o, diag, http)
     o["http"] = http.calls
     o["ud_sent"] = ud_sent(dev)
+    diag["shapes"] = _check_shapes(case, dev.mat.sig_shapes if dev.mat is not None else {})
     diag["att_log"] = dev.att_log
     if dev.att is not None:
         diag["env_len"] = len(dev.att["env"])
@@ -1130,6 +1317,9 @@ def concretise(b, rng, profile=None, grind=False):
         case.update({"rootvia": "url", "root_url": rng.choice(ROOT_URLS),
                      "root_status": rng.choice((404, 403, 500, 503, 301, 204, 201))})
     case["model"]["net"] = net
+    sh = b.get("shape")
+    if sh and sh.get("site", "none") != "none":
+        case["sigshape"] = {"site": sh["site"], "cls": sh["cls"]}
     if plat == "ledger":
         case["ui_pagesize"] = pagesize_for(UI_LEN, cfg["uip"], rng)
         case["s_pagesize"] = pagesize_for(LG_LEN if b["framing"] == "legacy" else SG_LEN, cfg["sp"], rng)
@@ -1214,7 +1404,9 @@ def signature(clause, case):
         s += " ud=node:%s%s" % (case["node"], "@%d" % case["node_at"] if case.get("node_at") else "")
     if case.get("rootvia") == "url":
         s += " root=url"
-    if clause == "GenuineVerifies" and case.get("content", "random") != "random":
+    if case.get("sigshape") and a["site"] == "none":
+        s += " sig=%s:%s" % (case["sigshape"]["site"], case["sigshape"]["cls"])
+    if clause == "GenuineVerifies" and case.get("content", "random") != "random" and "sig=" not in s:
         s += " content=%s%s" % (case["content"], "+keyshash" if case.get("grind_pkh") else "")
     return s
 
